@@ -42,6 +42,11 @@ def option_sets(inst, rng, n):
     paths = ns_paths(inst)
     cpps = class_cpps(inst)
     tops = [[]] + paths + [["zz"]] + [p + ["zz"] for p in paths[:1]] + [p[:1] + ["zz"] for p in paths if len(p) > 1][:1]
+    # names that are a proper prefix / an extension of a namespace name (string-prefix confusions)
+    for p in paths[:3]:
+        if len(p[-1]) > 1:
+            tops.append(p[:-1] + [p[-1][:max(1, len(p[-1]) // 2)]])
+        tops.append(p[:-1] + [p[-1] + "_unstable"])
     sets = [{"top": [], "ignore": [], "ser": rng.random() < 0.5}]
     for _ in range(n - 1):
         ig = []
@@ -72,11 +77,11 @@ def main(pid):
     rng = random.Random(rep.seed)
     thorough = rep.tier == "thorough"
     prefix = pid + ":"
-    plan = [("sim", dict(n=2500 if thorough else 220, target=10)),
+    plan = [("sim", dict(n=2500 if thorough else 160, target=10)),
             ("exh", dict(universe="classes", target=4, members=3, sample=4000 if thorough else 250)),
             ("exh", dict(universe="sigs", maxargs=3 if thorough else 2, target=2, members=1, sample=4000 if thorough else 250)),
-            ("exh", dict(universe="ns", target=4 if thorough else 3, members=1, sample=4000 if thorough else 200)),
-            ("exh", dict(universe="types", typedepth=1, target=2, members=1, rich=True, sample=4000 if thorough else 250)),
+            ("exh", dict(universe="ns", target=4, members=1, sample=4000 if thorough else 260, pairs=True)),
+            ("exh", dict(universe="types", typedepth=1, target=2, members=1, rich=True, sample=4000 if thorough else 150)),
             ("exh", dict(universe="inst", target=40, maxitems=2, sample=None if thorough else 200))]
     allcases = []
     for kind, kw in plan:
@@ -84,9 +89,10 @@ def main(pid):
             cs, r = cases.simulate(seed=rep.seed, **kw)
         else:
             sample = kw.pop("sample", None)
+            pairs = kw.pop("pairs", False)
             cs, r = cases.exhaustive(**kw)
             if sample is not None and len(cs) > sample:
-                cs = rng.sample(cs, sample)
+                cs = common.cover_pairs(cs, rng, sample) if pairs else rng.sample(cs, sample)
         rep.count("states", max(r.distinct, r.generated))
         rep.count("transitions", r.generated)
         allcases += [(c["origin"], layout.render(c["toks"])) for c in cs]
